@@ -155,6 +155,16 @@ func c13Run(c c13Case) error {
 		// every permitted attempt must really have been made and have failed:
 		// the source bytes are replayed attempt by attempt as fresh streams with
 		// the budget set to one attempt (no assumption about an attempt's size)
+		// (needs "a word is read when its draw is made": an implementation
+		// that reads ahead cannot be cut into attempts by bytes)
+		if o.S.Pre != 0 {
+			return &ev.Inc{Why: "source bytes read outside a bounded draw"}
+		}
+		for i, d := range o.S.Draws {
+			if d.Bound > 1 && (d.Bytes < 4 || d.Bytes%4 != 0) {
+				return &ev.Inc{Why: fmt.Sprintf("draw %d consumed %d bytes: reads are not made draw by draw", i, d.Bytes)}
+			}
+		}
 		end := o.S.Tape.Pos
 		pos := 0
 		for a := 0; a < c.MaxTrials; a++ {
@@ -345,7 +355,7 @@ func TestC13(t *testing.T) {
 			Kind:   rapid.IntRange(0, 3).Draw(t, "kind"),
 			Length: rapid.IntRange(-2, 6).Draw(t, "length"),
 			Words:  gen.WordList(t, gen.WordListOpts{Min: 1, Max: 6}),
-			Scheme: gen.Scheme(t, true),
+			Scheme: gen.Scheme(t, false), // what an undocumented scheme string means is not specified
 			Key:    rapid.Uint64().Draw(t, "key"),
 		}
 	}, c13RunWL)
